@@ -37,6 +37,9 @@ CLAIMS = {
  "C12": ("tablesmt+kani", "§4 C12",
    "z3 decides for every table character and every neighbourhood that emitted fragments stay within the canvas implied by the occupied cells, and for every entry of the circle catalogue at every placement that the endorsed circle does; CBMC decides the size formula.",
    "Quoted-text channel, endorsed arcs (Lazy arc catalogues) and legends are outside the claim; the catalogue circle's four arithmetic one-liners are shape-checked and re-stated in SMT, and validated against the real crate's rendering of all entries each run."),
+ "C13": ("tablesmt", "§4 C13",
+   "Geometry half only, catalogue level: the 22 catalogue entries are read from circle_map.rs; with the entry index, the cell index and the placement (k, n >= 0) symbolic, z3 decides that the emitted circle's horizontal extent equals the drawing's extent (radius (n-1)/2 cells, n/2 when the left-most column holds a slash) and that every occupied cell of the drawing lies within one cell (2.5 units centre-to-line) of the circle.",
+   "NOT decided: that a catalogue drawing in a real page is matched and emitted as exactly one circle and nothing else (endorse_circle_span, is_subset_of, CellBuffer/BTreeMap, Lazy statics: out of reach of every engine here) - on every run each entry is only rendered once by the real crate at the origin and compared with the model (translator validation, a concrete run, not a verdict). CircleArt::width/radius/edge_increment_x/center are shape-checked and re-stated in SMT (changed shape => INCONCLUSIVE)."),
  "C14": ("tablesmt+kani", "§4 C14",
    "z3 decides over all neighbourhoods: arrowheads fire only with a line on their tail side and have tip/base geometry as stated; corner arcs in box outlines are continuous and bulge outward; bullets become the documented circle exactly when attached. CBMC decides merge_circle yields a marker line ending at the bullet centre.",
    "Polygon->marker merging is commented out in svgbob; path rendering is outside the claim."),
@@ -47,7 +50,6 @@ CLAIMS = {
 
 NA = {
  "C07": "quantifies over thread schedules, hash seeds and call histories: Kani has no concurrency, cannot compile once_cell::Lazy (compiler ICE) and does not finish HashMap; no other engine here executes Rust symbolically",
- "C13": "22 concrete catalogue drawings behind Lazy statics and BTreeMap: nothing to quantify except placement, which C06 covers at kernel level",
  "C15": "rests on the pom combinator parser, str searching and unicode-width on strings: did not finish under Kani with every mitigation (>1200 s, 15 GB on a 4-char line)",
  "C17": "line splitting (str::lines) and the legend grammar (pom) are out of reach of every symbolic engine in the image",
  "C18": "whole-document relational claim through CellBuffer (BTreeMap), Lazy tables, sauron's vdom and fmt; no kernel carries it",
@@ -62,7 +64,7 @@ def main():
         if fn.endswith("_h.rs"):
             for m in re.finditer(r"^//@ harness:.*props=(\S+)", open(os.path.join(V, "kani", fn)).read(), re.M):
                 have.update(m.group(1).split(","))
-    have.update(["C03", "C05", "C12", "C14", "C09"])
+    have.update(["C03", "C05", "C12", "C13", "C14", "C09"])
     checks = []
     for pid in sorted(CLAIMS):
         if pid not in have:
@@ -78,6 +80,7 @@ def main():
             "level_claimed": {"category": "model_checking", "text": text, "design_ref": ref},
             "level_note": note,
             "technique": {"kani-bmc": "bounded model checking of the real Rust functions with Kani/CBMC (SAT)",
+                          "tablesmt": "source-to-SMT translation of the circle catalogue (data read from circle_map.rs, arithmetic one-liners shape-checked) decided by z3 over symbolic entry/cell index and placement, cvc5 cross-check, counterexamples replayed through the public API",
                           "tablesmt+kani": "source-to-SMT translation of the character tables decided by z3 (cvc5 cross-check) + Kani/CBMC harnesses",
                           "kani-bmc+tablesmt": "Kani/CBMC harnesses + source-to-SMT translation of the character tables decided by z3",
                           }[tech],
@@ -93,10 +96,10 @@ def main():
                   "baseline_off_cmd": "cd /repo && cargo test --workspace --no-fail-fast --offline",
                   "source_commits": [], "add_only": True},
         "engines": [
-            {"name": "kani", "path": "/verif/kani", "serves_properties": sorted(p for p in CLAIMS if p in have),
+            {"name": "kani", "path": "/verif/kani", "serves_properties": sorted(p for p in CLAIMS if p in have and CLAIMS[p][0] != "tablesmt"),
              "kind_free_text": "Kani 0.68 / CBMC 6.11 proof harnesses injected as child modules into a scratch copy of /repo/crates/svgbob"},
-            {"name": "tablesmt", "path": "/verif/vlib/tablesmt.py", "serves_properties": ["C03", "C05", "C09", "C12", "C14"],
-             "kind_free_text": "translator from map/ascii_map.rs + map/unicode_map.rs to SMT-LIB2, decided by z3, cross-checked by cvc5, validated against the real crate (/verif/replay)"},
+            {"name": "tablesmt", "path": "/verif/vlib/tablesmt.py", "serves_properties": ["C03", "C05", "C09", "C12", "C13", "C14"],
+             "kind_free_text": "translator from map/ascii_map.rs + map/unicode_map.rs (and the data of map/circle_map.rs) to SMT-LIB2, decided by z3, cross-checked by cvc5, validated against the real crate (/verif/replay)"},
         ],
         "checks": checks,
         "not_applicable": na,
